@@ -34,7 +34,7 @@ type c14Amino struct {
 
 func runC14(r *core.Run) {
 	firstCallClause(r, "sequtil.Translate", "sequtil.AminoName")
-	defer racePass(r, "race-sequtil", "ReverseComplement(String), DNATo2Bit/From2Bit, Translate(ReadingFrames), CanonicalSubsequences, AminoName on one shared src")
+	racePass(r, "race-sequtil", "ReverseComplement(String), DNATo2Bit/From2Bit, Translate(ReadingFrames), CanonicalSubsequences, AminoName on one shared src")
 
 	core.Clause(r, "codon-table", core.Opts{Rule: "all 64 codons x all 8 upper/lower case patterns against the NCBI table-1 string; non-trivial = all"},
 		func(emit func(c14Codon) bool) {
